@@ -79,7 +79,10 @@ func H_C04_RoundTrip() {
 	}
 	vrt.Assert(m.Close() == nil, "roundtrip/mmap-close-no-error")
 	vrt.Assert(!vrt.Symbolic() || (fs.OpenHandles == 0 && fs.OpenMaps == 0), "roundtrip/everything-closed")
-	vNativeIncompressible(fs, comp)
+	// (natively, with every real compressor: the stand-in of the engine is one compressor for gzip and lzw)
+	for _, c := range []int{CompressionTypeNone, CompressionTypeSnappy, CompressionTypeGZIP, CompressionTypeLzw} {
+		vNativeIncompressible(fs, c)
+	}
 	vrt.Reach("roundtrip/end")
 }
 
